@@ -368,11 +368,16 @@ CLAIMED = {
              "Kronecker construction is the matrix element <i|O|j>, every register size, all indices). Two defects found by "
              "this check were repaired (fix: a812a32, 77bd0ed). transition_amplitude_is_the_matrix_element (TransAmp.v): with the bsv masks and "
              "phase (-i)^#Y of pauli_label_to_bsv, the sum transition_amp_comp_basis forms over the terms filed under x = m xor n is "
-             "<m|O|n>, every register size, all indices; run exactly against the real functions on registers up to 70 qubits.",
+             "<m|O|n>, every register size, all indices; run exactly against the real functions on registers up to 70 qubits. "
+             "string_form_round_trips / string_form_separates_labels / parser_accepts_only_labels_on_distinct_qubits (LabelString.v): a "
+             "character-level model of PauliLabel.__str__ and _parse_pauli_label_str (re.sub dropping white space after X/Y/Z, split(), the "
+             "'I' form, ([XYZ])([0-9]+), int(), the duplicate test) - the string form of every label with one factor per qubit, any number "
+             "of factors, indices of any size, parses back to exactly that label, so the intern key separates labels; run by vm_compute "
+             "against str(label) and the real parser on printed strings, structured mutations and random strings (corr_C05_str.py).",
         design_ref="DESIGN.md section 4 (C05), 9.2",
         note="Trusted: Coq kernel+vm_compute; Reals axioms + funext; translate/tables.py; correspondence harnesses; scipy's kron "
-             "index rule as modelled. Partial: Trotter-Suzuki, label interning and parsing have no "
-             "theorem (sweep / correspondence); binary64 rounding not modelled.",
+             "index rule as modelled. Partial: Trotter-Suzuki has no theorem (sweep); the WeakValueDictionary intern table is "
+             "checked on the real objects; label strings are modelled on the ASCII range (Python re / split / int contracts as modelled); binary64 rounding not modelled.",
         technique="Coq proof (induction over labels and term lists on an n-qubit operator semantics, table obligations "
                   "by vm_compute) + vm_compute correspondence + dense numpy sweep"),
     "C03": dict(
